@@ -236,6 +236,18 @@ def run_direct(repo, R):
             where=top.where(E.returns[0][0]), expected=str(want), found=str(out))
     # tensordot axes (0, 0): the primitive axis of the coefficients with the primitive axis of the product
     tds = calls_in(fn, "np.tensordot")
+    eins = [c for c in calls_in(fn, "np.einsum") if len(c.args) == 3 and isinstance(c.args[0], ast.Constant) and isinstance(c.args[0].value, str)
+            and p[5] in (ast.unparse(c.args[1]), ast.unparse(c.args[2]))]
+    if not tds and len(eins) == 1:
+        spec = eins[0].args[0].value.replace(" ", "")
+        ins, out_ = spec.split("->")
+        subs = ins.split(",")
+        pos = 0 if ast.unparse(eins[0].args[1]) == p[5] else 1
+        sc, so = subs[pos], subs[1 - pos]
+        oke = bool(sc) and sc[0] != "." and sc[0] == so[0] and sc[0] not in out_
+        R.check(oke, "DIRECT", top.site, f"np.einsum('{spec}', prim_coeffs, ...)", "primitives must be contracted with the (K, M) coefficient matrix on axis 0",
+                where=top.where(eins[0]), expected="first axis of the coefficients summed against the first axis of the values", found=spec)
+        return max_order, masks
     if len(tds) != 1 or len(tds[0].args) != 3 or p[5] not in (ast.unparse(tds[0].args[0]), ast.unparse(tds[0].args[1])):
         raise AnalysisError("DIRECT", f"the contraction of `{p[5]}` with the primitives is not a single np.tensordot(.., .., axes): idiom not recognised",
                             top.where(tds[0]) if tds else top.where())
